@@ -111,9 +111,10 @@ Failing(h, e, fl) ==
            frame |-> frame, views |-> views, rect |-> rect]
         ELSE
           LET R == Step(h, op, recv, a) IN
-          [errClass  |-> (e.kind = "err") = R.err,
-           recvState |-> recv = 0 \/ ~R.j \/ obs[recv] = R.o,
-           created   |-> IF R.err \/ e.kind = "err" THEN n = Len(h) ELSE newObs = R.new,
+          [errClass  |-> op \in UnjudgedCreators \/ (e.kind = "err") = R.err,
+           recvState |-> recv = 0 \/ (~R.j /\ op \notin UnjudgedCreators) \/ obs[recv] = R.o,
+           created   |-> IF op \in UnjudgedCreators THEN (IF e.kind = "err" THEN n = Len(h) ELSE n = Len(h) + 1)
+                         ELSE IF R.err \/ e.kind = "err" THEN n = Len(h) ELSE newObs = R.new,
            ret       |-> R.err \/ e.kind = "err" \/ ~R.j \/ RetOK(op, a, R.ret, e.ret),
            folded    |-> R.err \/ e.kind = "err" \/ ~R.j \/ FoldedOK(op, a, R.ret, e.ret),
            frame |-> frame, views |-> (~R.j) \/ views, rect |-> (~R.j) \/ rect]
